@@ -133,6 +133,32 @@ struct Exclusive {
     int_half: u8,
 }
 
+/// enumerations that list `null` explicitly (legal, and what some generators emit for nullable enums)
+fn enum_with_null(ty: schemars::schema::InstanceType, values: Vec<serde_json::Value>) -> schemars::schema::Schema {
+    use schemars::schema::*;
+    let mut o = SchemaObject { instance_type: Some(ty.into()), enum_values: Some(values), ..Default::default() };
+    o.extensions.insert("nullable".to_string(), json!(true));
+    o.into()
+}
+fn mode_schema(_: &mut schemars::gen::SchemaGenerator) -> schemars::schema::Schema {
+    enum_with_null(schemars::schema::InstanceType::String, vec![json!("on"), json!("off"), serde_json::Value::Null])
+}
+fn level_schema(_: &mut schemars::gen::SchemaGenerator) -> schemars::schema::Schema {
+    enum_with_null(schemars::schema::InstanceType::Integer, vec![json!(1), serde_json::Value::Null, json!(3)])
+}
+fn ratio_schema(_: &mut schemars::gen::SchemaGenerator) -> schemars::schema::Schema {
+    enum_with_null(schemars::schema::InstanceType::Number, vec![serde_json::Value::Null, json!(2), json!(4)])
+}
+#[derive(Deserialize, Serialize, JsonSchema)]
+struct NullInEnum {
+    #[schemars(schema_with = "mode_schema")]
+    mode: Option<String>,
+    #[schemars(schema_with = "level_schema")]
+    level: Option<i32>,
+    #[schemars(schema_with = "ratio_schema")]
+    ratio: Option<f64>,
+}
+
 /// object schemas whose `required` names keys that have no entry of their own under `properties`
 /// (covered by additionalProperties only) -- legal JSON Schema that derive never produces
 fn labels_schema(g: &mut schemars::gen::SchemaGenerator) -> schemars::schema::Schema {
@@ -439,6 +465,7 @@ fn main() {
     t!(Zeros);
     t!(Exclusive);
     t!(RequiredBeyondProperties);
+    t!(NullInEnum);
     t!([u8; 0]);
     t!([String; 1]);
     t!(UnitEnum);
